@@ -295,7 +295,7 @@ class Replayer(object):
         add, sub, mul = fval(res["add"]), fval(res["sub"]), fval(res["mul"])
         gzero = not vg[0]
         fzero = not vf[0]
-        shared = vf[1] == vg[1] and len(vf[1]) >= 2
+        shared = vf[1] == vg[1] and vf[1] != {0: F(1)}      # same denominator other than 1: __add__ takes its shortcut
         for kind in kinds_for(tf, tg):
             info = {"f": tree_str(tf), "g": tree_str(tg), "coefficients": kind}
             self.ctx.count(0, nontrivial_key=("pair", info["f"], info["g"]))
@@ -645,7 +645,7 @@ def m3(ctx, al, ntrees, nsys, length):
             ctx.count(1)
             ctx.violation("C05:sys-raises", dict(info, raised="%s: %s" % (type(ex).__name__, str(ex)[:160])))
             continue
-        info["shared_denominator"] = tf["d"] == tg["d"] and len(tf["d"]) >= 2
+        info["shared_denominator"] = tf["d"] == tg["d"] and tf["d"] != {0: F(1)}
         if not encodable(rec):
             ctx.count(1)
             ctx.violation("C05:sys:magnitude", dict(info, why="observed value outside the range of every specified value"))
@@ -706,7 +706,7 @@ def check(ctx):
     ]
     if ctx.thorough:
         m2(ctx, al, "FilterAlgC05_thorough.cfg")
-        m3(ctx, al, 2500, 600, 10)
+        m3(ctx, al, 1500, 250, 10)
     else:
         m2(ctx, al, "FilterAlgC05_quick.cfg")
         m3(ctx, al, 300, 80, 8)
